@@ -36,6 +36,7 @@ static int is_str_mode(void) { return kmode == KM_STR || kmode == KM_STR_COLLIDE
    defaults over exactly 12 bytes.  Each harness key lives in a block with 4 more bytes behind it, which are
    re-randomised before every operation: what lies behind a key must never matter. */
 static var Plain12;
+static int plain_idx_off;        /* where a Plain12 key carries its index: in its first or in its last four bytes */
 static int is_pe_mode(void) { return kmode >= KM_PE_SAME && kmode <= KM_PE_IDENT; }
 static var key_type_of_mode(void) { return is_int_mode() ? Int : is_str_mode() ? String : kmode == KM_PLAIN12 ? Plain12 : PElem; }
 static void scramble_tails(vh_rng* r) {
@@ -50,7 +51,7 @@ static int key_to_id(var k) {
   for (int i = 0; i < U; i++) {
     if (is_int_mode()) { if (((struct Int*)k)->val == kint[i]) { return i; } }
     else if (is_str_mode()) { if (strcmp(((struct String*)k)->val, kstr[i]) == 0) { return i; } }
-    else if (kmode == KM_PLAIN12) { int32_t idx; memcpy(&idx, k, 4); return (idx >= 0 && idx < U) ? (int)idx : -1; }
+    else if (kmode == KM_PLAIN12) { int32_t idx; memcpy(&idx, (char*)k + plain_idx_off, 4); return (idx >= 0 && idx < U) ? (int)idx : -1; }
     else { if (((struct PElem*)k)->id == i) { return i; } }
   }
   return -1;
@@ -59,6 +60,7 @@ static int key_to_id(var k) {
 static void make_keys(vh_rng* r) {
   int64_t mult = (U <= 20) ? M_ALL : M_389;
   uint64_t target = 0, p = 0;
+  if (kmode == KM_PLAIN12) { plain_idx_off = vh_chance(r, 50) ? 8 : 0; if (plain_idx_off) { vh_count("plain_key_cases_with_keys_sharing_their_first_word"); } }
   if (kmode == KM_STR_COLLIDE) {
     static const uint64_t P[] = { 5, 11, 23, 53 };
     p = P[vh_below(r, 4)]; target = vh_below(r, p);
@@ -92,8 +94,14 @@ static void make_keys(vh_rng* r) {
     else if (kmode == KM_PLAIN12) {
       char* blk = calloc(1, sizeof(struct Header) + 16);
       K[i] = header_init(blk, Plain12, AllocHeap);
-      int32_t idx = i; memcpy(K[i], &idx, 4);
-      for (int b = 4; b < 12; b++) { ((unsigned char*)K[i])[b] = (unsigned char)(i * 31 + b * 7); }
+      int32_t idx = i;
+      if (plain_idx_off == 0) {
+        memcpy(K[i], &idx, 4);
+        for (int b = 4; b < 12; b++) { ((unsigned char*)K[i])[b] = (unsigned char)(i * 31 + b * 7); }
+      } else {
+        /* every key starts with the same eight bytes: only the last four tell them apart */
+        memset(K[i], 0x5a, 8); memcpy((char*)K[i] + 8, &idx, 4);
+      }
     }
     else {
       uint64_t h = 0;
